@@ -323,3 +323,25 @@ PLANS["C10"] = dict(
         validate=dict(module="Trace_Notation", cfg=trace_cfg()),
     )],
 )
+
+# ------------------------------------------------------------------ C11
+PLANS["C11"] = dict(
+    level_text="SignOCI is modelled stage by stage (resolve, digest pin, metadata merged into a private copy, sign, annotate, push) with the "
+               "repository's view of the artifact and the caller's maps as frame variables; TLC checks over all histories of up to 3 calls "
+               "(5 reference kinds x 4 metadata kinds, annotated or plain artifact, in-memory / on-disk / re-opened layout) the exact refusal "
+               "conditions, what is signed and pushed, the frame conditions as action properties and repeatability; every history is executed "
+               "with a real local signer against an in-memory repository that hands out the same descriptor value on each Resolve and against "
+               "real on-disk OCI layouts, observing signer arguments, pushed subject/annotations/payload, index.json and the caller's maps.",
+    level_note="Trusted: TLC, oras-go OCI layout store, notation-core-go envelope verification (used to read back the pushed payload).",
+    rule="cases = all call histories of length MaxCalls over the call alphabet x artifact/store kinds; all non-trivial (each history checks frame conditions)",
+    exhaustive=True,
+    phases=[dict(
+        name="histories",
+        gen=dict(module="MC_Notation_C11",
+                 cfg=lambda tier, seed: mc_cfg(["Inv_C11", "Inv_Repeatable", "Inv_PushCount", "Inv_Emit"], consts=["MaxCalls = 3" if tier == "thorough" else "MaxCalls = 2"],
+                                               extra=["PROPERTY Prop_ArtFrame"]),
+                 select=take_all),
+        drive=dict(driver="notation-sign"),
+        validate=dict(module="Trace_NotationSign", cfg=trace_cfg()),
+    )],
+)
